@@ -1,0 +1,80 @@
+//! Verification hooks: a read-only snapshot of the private state of the
+//! [`StunClient`](crate::StunClient). Only compiled with the cargo feature `verif`.
+#![allow(missing_docs)]
+
+use crate::Integrity;
+use std::time::{Duration, Instant};
+use stun_rs::TransactionId;
+
+#[derive(Debug, Clone, PartialEq, Eq)]
+pub struct VerifTransaction {
+    pub id: TransactionId,
+    /// Send instant still recorded for the RTT sample (None after a retransmission)
+    pub sample: Option<Instant>,
+    pub packet: Vec<u8>,
+    pub latest: Option<Instant>,
+    pub last_rto: Duration,
+    pub calc_rtt: Duration,
+    pub calc_rm: u32,
+    pub calc_rc: u32,
+    pub calc_last_rm: u32,
+}
+
+#[derive(Debug, Clone, PartialEq, Eq)]
+pub struct VerifTimeout {
+    pub id: TransactionId,
+    pub instant: Instant,
+    pub timeout: Duration,
+}
+
+#[derive(Debug, Clone, PartialEq, Eq)]
+pub struct VerifRtt {
+    pub rto: Duration,
+    pub srtt: Duration,
+    pub rttvar: Duration,
+    pub granularity: Duration,
+    pub configured_rto: Duration,
+    pub rm: u32,
+    pub rc: u32,
+}
+
+#[derive(Debug, Clone, PartialEq, Eq)]
+pub struct VerifLongTermParams {
+    pub realm: String,
+    pub nonce: String,
+    pub algorithms: Option<Vec<(u16, Vec<u8>)>>,
+    pub algorithm: Option<(u16, Vec<u8>)>,
+    pub key: Vec<u8>,
+    pub user_hash: Option<Vec<u8>>,
+    pub integrity: Integrity,
+}
+
+#[derive(Debug, Clone, PartialEq, Eq)]
+pub struct VerifLongTerm {
+    pub state: &'static str,
+    pub params: Option<VerifLongTermParams>,
+    pub marked: Vec<TransactionId>,
+}
+
+#[derive(Debug, Clone, PartialEq, Eq)]
+pub enum VerifMechanism {
+    None,
+    ShortTerm {
+        integrity: Option<Integrity>,
+        marked: Vec<TransactionId>,
+    },
+    LongTerm(VerifLongTerm),
+}
+
+#[derive(Debug, Clone, PartialEq, Eq)]
+pub struct VerifSnapshot {
+    pub transactions: Vec<VerifTransaction>,
+    pub timeouts: Vec<VerifTimeout>,
+    pub reliable_timeout: Option<Duration>,
+    pub rtt: Option<VerifRtt>,
+    pub last_request: Option<Instant>,
+    pub mechanism: VerifMechanism,
+    pub use_fingerprint: bool,
+    pub max_transactions: usize,
+    pub pending_events: usize,
+}
